@@ -56,6 +56,16 @@ def run_cli(h, run, assemble_outcomes=('ok', 'AssemblerError', 'other'), argc=2)
     parser.attrs['add_argument'] = I.Builtin('add_argument', lambda it, a, k: None)
     parser.attrs['parse_args'] = I.Builtin('parse_args', lambda it, a, k: mk_ns(it))
 
+    def p_exit(it, a, k):
+        # argparse.ArgumentParser.exit(status=0, message=None): writes the message to stderr and calls sys.exit(status)
+        status = k.get('status', a[0] if a else 0)
+        raise I.PyRaise(it.instantiate(I.EXC['SystemExit'], [status], {}))
+
+    def p_error(it, a, k):
+        raise I.PyRaise(it.instantiate(I.EXC['SystemExit'], [2], {}))
+    parser.attrs['exit'] = I.Builtin('parser.exit', p_exit)
+    parser.attrs['error'] = I.Builtin('parser.error', p_error)
+
     def sym_truth_of_str(it, s):
         # truthiness of an option string: argparse never yields '' for a given option unless the user passes it
         return True
@@ -113,12 +123,15 @@ def run_cli(h, run, assemble_outcomes=('ok', 'AssemblerError', 'other'), argc=2)
             eff.append(('assemble-returned',))
             return binary
         if it.run.branch(z3.Bool('assemble_raises_AssemblerError')):
-            raise I.PyRaise(it.instantiate(h.env.vars['AssemblerError'], ['refused', I.Opaque('line')], {}))
+            raise I.PyRaise(it.instantiate(h.env.vars['AssemblerError'], [I.Sym('str', z3.Int('error_message')), I.Opaque('line')], {}))
         I.py_raise('RuntimeError', 'any other exception escaping assemble')
 
     def symstr_method(it, s, name):
         if name == 'format':
             return I.Builtin('str.format', lambda it2, a, k: Fmt(s, a))
+        if name in ('startswith', 'endswith', '__contains__', 'isdigit', 'isidentifier'):
+            # a predicate of an arbitrary string: either way
+            return I.Builtin('str.' + name, lambda it2, a, k: bool(it2.run.branch(z3.Bool(it2.run.fresh_name('str_' + name)))))
         return None
 
     hooks = {'external': external, 'opaque_attr': opaque_attr, 'opaque_index': opaque_index, 'len': b_len,
@@ -186,6 +199,18 @@ def obligations_cli(ctx, h):
         ok_a = first_write is None or (returned is not None and returned < first_write)
         ctx.add(Obligation('%s/path%d/writes-only-after-assemble-returned' % (fn, i), list(p.pc), z3.BoolVal(ok_a), 'INT', func=fn,
                            kind='effect', cover=False, meta={'replay': rp, 'what': 'an output file is written before assemble() returned'}))
+        # (b0) a run in which assemble did not return (it refused the program, or something escaped from it) ends with a
+        #      non-zero exit status: an exception other than SystemExit(0) / SystemExit(None)
+        called = any(k == 'assemble-called' for k in kinds)
+        if called and returned is None:
+            nonzero = p.kind == 'raise'
+            if nonzero and p.exc_name == 'SystemExit':
+                code = p.value.fields.get('args', ())
+                nonzero = not (len(code) == 0 or code[0] is None or (isinstance(code[0], int) and not isinstance(code[0], bool) and code[0] == 0)
+                               or code[0] is False)
+            ctx.add(Obligation('%s/path%d/a-failed-assembly-ends-with-a-non-zero-exit-status' % (fn, i), list(p.pc), z3.BoolVal(bool(nonzero)), 'INT',
+                               func=fn, kind='effect', cover=False,
+                               meta={'replay': rp, 'what': 'assemble() failed but the run ends %s' % ('normally (exit status 0)' if p.kind == 'return' else 'with SystemExit(0)')}))
         # (b)
         if p.kind == 'raise':
             ok_b = first_write is None
